@@ -174,6 +174,15 @@ def cli_case(arg):
         def build(ts_profile=None, name_perm=None):
             r2 = random.Random(mseed)
             m = small_model(r2, maxtrees=12, maxtags=8, maxcommits=10, ts_profile=ts_profile)
+            if mseed % 3 == 1:
+                # a directory with hundreds of subdirectory entries (a few distinct subtrees under many names), which a listing
+                # may deliver before or after those subtrees
+                r3 = random.Random(mseed + 1)
+                subs = [G.Tree([G.Entry(G.FILE, b"f%d" % k, G.Blob(b"s%d\n" % k))] + ([G.Entry(G.TREE, b"e", G.Tree([]))] if k == 1 else []))
+                        for k in range(r3.choice([1, 2, 3]))]
+                wide = G.Tree([G.Entry(G.TREE, b"w%04d" % j, subs[j % len(subs)]) for j in range(r3.choice([255, 256, 257, 300, 511, 512, 700]))])
+                m.refs["refs/heads/wide"] = G.Commit(G.Tree([G.Entry(G.TREE, b"top", wide), G.Entry(G.TREE, b"again", subs[0])]), [],
+                                                     cts=1500000000 + (ts_profile(0) - ts_profile(0) if ts_profile else 0), msg=b"wide\n")
             if name_perm is not None:
                 names = sorted(m.refs)
                 objs = [m.refs[n] for n in names]
